@@ -253,8 +253,8 @@ def run(tier, seed):
     common.build_mmdump()
     common.build_mmdump(debug=True)
     mirs = [common.dump_mir('mimium_lang')[0], common.dump_mir('state_tree')[0]]
-    groups = ['st', 'ct', 'op', 'cl', 'fx']
-    files = common.corpus_files(groups)
+    groups = ['st', 'ct', 'op', 'cl', 'gn', 'fx']
+    files = common.corpus_files(groups, tier, seed)
     steps = 3 if quick else 6
     budget = 60 if quick else 300
     qto = 5000 if quick else 30000
